@@ -116,7 +116,12 @@ def c10_document(E, with_groups=("none", "reactions+metabolites", "reactions+met
         elif kind.startswith("factory-defaults"):
             r1.bounds = (-1000.0, 1000.0)       # the defaults cobrapy ships with, whatever is configured now
         oc = E.real("objective_coefficient_R1", -5, 5)
-        m.objective = {m.reactions.DM_B: 1, r1: oc}
+        objkind = E.pick("objective", ["two-coefficients", "empty"])
+        if objkind == "empty":
+            from optlang.symbolics import Zero
+            m.objective = m.problem.Objective(Zero, sloppy=True)
+        else:
+            m.objective = {m.reactions.DM_B: 1, r1: oc}
         direction = E.pick("direction", ["max", "min"])
         m.objective_direction = direction
         m.metabolites.B.charge = -2
@@ -146,7 +151,7 @@ def c10_document(E, with_groups=("none", "reactions+metabolites", "reactions+met
                           Group("G-2" if ids == "awkward" else "G2", name="second", kind="collection",
                                 members=[r2, m.metabolites.get_by_id("b-1.x" if ids == "awkward" else "B")]
                                 + ([m.genes.get_by_id("3-g" if ids == "awkward" else "g3")] if grp.endswith("genes") else []))])
-        E.note(direction=direction, config_bounds=str(cfgb), bounds_kind=kind, groups=grp, identifiers=ids)
+        E.note(direction=direction, config_bounds=str(cfgb), bounds_kind=kind, groups=grp, identifiers=ids, objective=objkind)
         a = observe(m)
         number = env.Float if E.symbolic else float
         try:
@@ -164,7 +169,7 @@ def c10_document(E, with_groups=("none", "reactions+metabolites", "reactions+met
         if not E.symbolic:
             _, errors = validate_sbml_model(io.StringIO(text))
             bad = {k: v[:2] for k, v in errors.items() if v and k in ("SBML_FATAL", "SBML_ERROR", "SBML_SCHEMA_ERROR", "COBRA_FATAL", "COBRA_ERROR")}
-            E.prove(not bad, "written-document-validates", errors=str(bad)[:300])
+            E.prove(not bad, "written-document-validates", errors=str(bad)[:300], objective=objkind)
         b = observe(m2)
         skip = ("index_ok",)
         for o in (a, b):
